@@ -204,6 +204,10 @@ def targets(ctx):
         if kind == "ts":
             us = draw(ts_us_strategy())
             off = draw(st.one_of(st.just(0), st.sampled_from([60, -60, 330, -840, 840, 1, -1, 345]), st.integers(-840, 840)))
+            if off and draw(st.integers(0, 5)) == 0:
+                # an instant whose LOCAL wall clock reads a special moment (the epoch, a day / year boundary)
+                local = draw(st.sampled_from([0, 0, 1, -1, 86_400_000_000, -86_400_000_000, 1_000_000, 946_684_800_000_000]))
+                us = local - off * 60 * 10**6
             return {"kind": kind, "us": us, "off": off, "pos": pos}
         return {"kind": kind, "us": draw(dur_us_strategy()), "pos": pos}
 
